@@ -327,17 +327,17 @@ theorem postingCommodities_mem {p : Posting} {cm : Commodity} (h : cm ∈ postin
   · split at h
     · rename_i a ha
       simp at h; subst h
-      exact Or.inl (Or.inl (Or.inl (Or.inr (by simp [amountRanges, ha]))))
-    · simp at h
-  · split at h
-    · rename_i a ha
-      simp at h; subst h
       exact Or.inl (Or.inl (Or.inr (by simp [amountRanges, ha])))
     · simp at h
   · split at h
     · rename_i a ha
       simp at h; subst h
       exact Or.inl (Or.inr (by simp [amountRanges, ha]))
+    · simp at h
+  · split at h
+    · rename_i a ha
+      simp at h; subst h
+      exact Or.inr (by simp [amountRanges, ha])
     · simp at h
 
 theorem commodityAt_eq {c : Cur} {cm : Commodity} {h : Hit} (hh : commodityAt c cm = some h) :
